@@ -188,6 +188,8 @@ func Marshal(data any, args ...any) (out []byte, err error) {
 		wr, _ = marshalPool.Get().(*Writer)
 		defer marshalPool.Put(wr)
 	} else {
+		// The Writer belongs to the caller, only be strict for this call.
+		defer func(strict bool) { wr.strict = strict }(wr.strict)
 		wr.strict = true
 	}
 	defer func() {
